@@ -136,6 +136,8 @@ def shards(tier, seed):
     for tok in ("AC", "HS") if tier == "thorough" else ("AC",):
         out += dd.residue_shards("editions-" + tok, "ed", tok, 32)
     out += dd.residue_shards("examples-AC", "ex", "AC", 8)
+    for rot in range(len(VOL_FORMS)):
+        out += dd.residue_shards("volume-order-AC", "vo", "AC", 4, {"rot": rot})
     for tok in ("AC", "HS", "REF"):
         out += dd.seq_shards("plain-" + tok, "A2", len(A2), d[tok], tok)
     return out
@@ -149,6 +151,27 @@ def example_cases(sh):
         for exy in examples.with_years(ex):
             yield {"part": sh["part"], "tok": sh["tok"], "text": f"Foo v. Bar, {exy}."}
             yield {"part": sh["part"], "tok": sh["tok"], "text": f"See {exy} (x)."}
+
+
+VOL_FORMS = [("12", "345"), ("1", "5"), ("2", "5"), ("100", "5A"), ("2", "xii")]
+
+
+def volume_order_cases(sh):
+    """The candidate editions of a reporter string also depend on the volume and the page format. For every ambiguous string
+    and every boundary year the five volume/page forms are extracted one after another in one process, starting with form
+    number sh['rot'] (each rotation in its own shard = its own process): whichever form comes first must not decide the
+    others (a memo keyed on string and year alone would)."""
+    tok = sh["tok"]
+    tk = tokenizer(tok)
+    for rep in dd.sliced(iter(_REPS["all"]), sh["r"], sh["n"]):
+        probe = [c for c in get_citations(f"Foo v. Bar, 1 {rep} 5.", tokenizer=tk) if isinstance(c, M.ResourceCitation) and c.matched_text() == f"1 {rep} 5"]
+        if len(probe) != 1 or len(set(probe[0].exact_editions or probe[0].variation_editions)) < 2:
+            continue
+        ys = years_for(list(probe[0].exact_editions) + list(probe[0].variation_editions))
+        forms = VOL_FORMS[sh["rot"] :] + VOL_FORMS[: sh["rot"]]
+        for y in ys:
+            for vol, page in forms:
+                yield {"part": sh["part"], "tok": tok, "text": f"Foo v. Bar, {vol} {rep} {page} ({y:04d})."}
 
 
 def edition_cases(sh):
@@ -171,8 +194,7 @@ def edition_cases(sh):
         for y in sorted(ys):
             for pos in POSITIONS:
                 yield {"part": sh["part"], "tok": tok, "text": render(rep, "%04d" % y, pos)}
-            for vol, page in (("1", "5"), ("2", "5"), ("100", "5A"), ("2", "xii")):
-                yield {"part": sh["part"], "tok": tok, "text": f"Foo v. Bar, {vol} {rep} {page} ({y:04d})."}
+
 
 
 def run_shard(sh):
@@ -181,6 +203,10 @@ def run_shard(sh):
         gen = ("".join(seq) for seq, _ in docspace.edit_mutations(TEMPLATES[sh["t"]], EDIT_ALPHA, sh["edits"]))
         cases = ({"part": sh["part"], "tok": sh["tok"], "text": t} for t in dd.sliced(gen, sh["r"], sh["n"]))
         return dd.run_cases(st, sh["part"], cases, evaluate, nontrivial=nontrivial, outcome=outcome)
+    if sh["kind"] == "vo":
+        # the same text recurs in other rotations (other processes): the text alone is not the state here
+        cases = ({**c, "opts": None, "text": c["text"]} for c in volume_order_cases(sh))
+        return dd.run_cases(st, sh["part"] + f"-rot{sh['rot']}", cases, evaluate, nontrivial=nontrivial, outcome=outcome)
     if sh["kind"] == "ex":
         return dd.run_cases(st, sh["part"], example_cases(sh), evaluate, nontrivial=nontrivial, outcome=outcome)
     cases = dd.seq_cases(sh, ALPHABETS) if sh["kind"] == "seq" else edition_cases(sh)
